@@ -139,6 +139,8 @@ def _strip_cv(t):
 def item_of_event(ev):
     """Rebuild the exported item of one recorded event (for --replay)."""
     tr = ev["trait"]
+    if "a" in ev:
+        return {"g": "bigcmp", "a": ev["a"], "b": ev["b"]} if "b" in ev else {"g": "big1", "a": ev["a"]}
     if "bs" in ev:
         return {"g": "logic", "op": tr, "bs": ev["bs"]}
     if tr == "ratio":
@@ -165,15 +167,15 @@ def item_of_event(ev):
     return {"g": "type", "t": ev["t"], "val": [tr], "tr": [], "has": []}
 
 
-def replay(path, pid):
-    """Re-evaluate the trait of a recorded deviation on the current tree and judge it again."""
-    rec = json.load(open(path))
+def replay(rec):
+    """check.py --replay: re-evaluate the trait of a recorded deviation on the current tree and judge it again.
+    Returns the deviations (empty list = the recorded case conforms now)."""
     ev = rec["event"]
-    rep = vlib.Report(pid, "quick")
+    rep = vlib.Report("C15", "quick")
     gen = model("quick", rep, tag="types_replay")
     items = [g for g in gen if g["g"] in ("class", "enum")] + [item_of_event(ev)]
     paths, _, _ = build_and_run(items, "quick", "etl", tag="types_replay", k=1)
-    keys = ("trait", "t", "u", "n", "d", "n1", "d1", "n2", "d2", "bs")
+    keys = ("trait", "t", "u", "n", "d", "n1", "d1", "n2", "d2", "bs", "a", "b")
     sel = [l for l in open(paths[0]) if all(json.loads(l).get(k) == ev.get(k) for k in keys)]
     if not sel:
         raise vlib.ModelFailure("replay: the observation %s can no longer be made" % ev.get("trait"))
@@ -181,7 +183,4 @@ def replay(path, pid):
     with open(one, "w") as f:
         f.write(sel[0])
     r = vlib.tlc_tv("TypesTrace.tla", "TypesTrace.cfg", one, "types_tv_replay", heap="1g")
-    if r["deviations"]:
-        print("VIOLATION property=%s replay=%s" % (pid, path))
-        return 1
-    return 0
+    return r["deviations"]
